@@ -1,6 +1,6 @@
 import GolibsVerif.Model.RedisConc
 import GolibsVerif.Lemmas.Lin
-import GolibsVerif.Lemmas.Kv
+import GolibsVerif.Lemmas.RedisSrv
 /-! helper lemmas for Props/C02Redis.lean: the WATCH invariant of `RedisConc` and the shape of
 every command step -/
 namespace RedisConc
@@ -39,61 +39,86 @@ theorem touchE_nil (e : Option (String × Bool)) : touchE [] e = e := by
   have : touchE [] = id := by funext e; exact touchE_nil e
   rw [this]; simp
 
-/-! ### store frame lemmas -/
+/-! ### server frame lemmas: what a command leaves untouched, as seen through the purge at `now` -/
 
-theorem live_congr {s s' : Spec} {k : String} (h : s'.store.get k = s.store.get k) (now : Nat) :
-    s'.live now k = s.live now k := by
-  unfold Spec.live; rw [h]
+theorem contains_single {k k' : String} (h : [k].contains k' = false) : k' ≠ k := by
+  intro he; simp [he] at h
 
-theorem putMany_get_ne (k : String) (rs : List (String × String × Option Nat)) :
-    ∀ (s : Spec), (rs.map (·.1)).contains k = false →
-      (rs.foldl (fun st (x : String × String × Option Nat) => (st.write x.1 x.2.1 x.2.2).1) s).store.get k
-        = s.store.get k := by
+theorem setRec_get_ne (c : Redis) (now : Nat) (k v : String) (e : Option Nat) (k' : String)
+    (h : [rKey k].contains k' = false) :
+    ((c.setRec now k v e).1.srv.purge now).get k' = (c.srv.purge now).get k' := by
+  simp only [Redis.setRec]
+  exact RedisSrv.get_purge_set_ne _ _ _ (contains_single h)
+
+theorem psrv_get (s : St) (k : String) : (s.psrv.srv.purge s.now).get k = (s.srv.srv.purge s.now).get k := by
+  simp only [St.psrv, RedisSrv.purge_purge]
+
+theorem psrv_setRec_get_ne (s : St) (k v : String) (e : Option Nat) (k' : String)
+    (h : [rKey k].contains k' = false) :
+    ((s.psrv.setRec s.now k v e).1.srv.purge s.now).get k' = (s.srv.srv.purge s.now).get k' := by
+  rw [setRec_get_ne _ _ _ _ _ _ h, psrv_get]
+
+theorem psrv_del_get_ne (s : St) (k k' : String) (h : [k].contains k' = false) :
+    ((s.psrv.srv.del k).purge s.now).get k' = (s.srv.srv.purge s.now).get k' := by
+  rw [RedisSrv.get_purge_del_ne _ _ (contains_single h), psrv_get]
+
+theorem putMany_get_ne (now : Nat) (k : String) (rs : List (String × String × Option Nat)) :
+    ∀ (c : Redis), (rs.map (fun x => rKey x.1)).contains k = false →
+      ((rs.foldl (fun st (x : String × String × Option Nat) => (st.setRec now x.1 x.2.1 x.2.2).1) c).srv.purge now).get k
+        = (c.srv.purge now).get k := by
   induction rs with
-  | nil => intro s _; rfl
+  | nil => intro c _; rfl
   | cons a rs ih =>
-    intro s h
+    intro c h
     simp only [List.map_cons, List.contains_cons, Bool.or_eq_false_iff] at h
     simp only [List.foldl_cons]
     rw [ih _ h.2]
-    simp only [Spec.write]
-    apply Store.get_put_ne
-    intro he
-    have := h.1
-    simp [he] at this
+    apply setRec_get_ne
+    simp only [List.contains_cons, List.contains_nil, Bool.or_false]
+    exact h.1
+
+theorem Redis.step_putMany' (c : Redis) (now : Nat) (rs : List (String × String × Option Nat)) :
+    c.step now (.putMany rs) =
+      (rs.foldl (fun st (x : String × String × Option Nat) => (st.setRec now x.1 x.2.1 x.2.2).1)
+        { c with srv := c.srv.purge now }, .ok) := by
+  unfold Redis.step
+  rfl
 
 /-! ### the WATCH invariant -/
 
-/-- what the watch slot of a client must look like, given its program counter -/
-def WOk (srv : Spec) (now : Nat) (p : Pc) (w : Option (Option (String × Bool))) : Prop :=
+/-- what the watch slot of a client must look like, given its program counter: the slot holds the REDIS
+key of the CAS; a client about to EXEC whose slot is clean still finds (on the purged server) a key
+carrying the version it expects -/
+def WOk (srv : Redis) (now : Nat) (p : Pc) (w : Option (Option (String × Bool))) : Prop :=
   match p with
-  | .casExec k ver _ _ => ∃ d, w = some (some (k, d)) ∧ (d = false → ∃ r, srv.live now k = some r ∧ r.ver = ver)
-  | .casGet k _ _ _ => ∃ d, w = some (some (k, d))
+  | .casExec k ver _ _ => ∃ d, w = some (some (rKey k, d)) ∧
+      (d = false → ∃ rv, (srv.srv.purge now).get (rKey k) = some rv ∧ rv.r.ver = ver)
+  | .casGet k _ _ _ => ∃ d, w = some (some (rKey k, d))
   | _ => True
 
 structure WInv (s : St) : Prop where
   len : s.watch.length = s.pc.length
   ok : ∀ (t : Nat) (p : Pc), s.pc[t]? = some p → WOk s.srv s.now p s.watch[t]?
 
-theorem WOk_frame {srv srv' : Spec} {now : Nat} {ks : List String}
-    (hf : ∀ k, ks.contains k = false → srv'.store.get k = srv.store.get k)
+theorem WOk_frame {srv srv' : Redis} {now : Nat} {ks : List String}
+    (hf : ∀ k, ks.contains k = false → (srv'.srv.purge now).get k = (srv.srv.purge now).get k)
     {p : Pc} {w : Option (Option (String × Bool))} (h : WOk srv now p w) :
     WOk srv' now p (w.map (touchE ks)) := by
   cases p with
   | casExec k ver v e =>
     obtain ⟨d, rfl, hd⟩ := h
-    refine ⟨d || ks.contains k, rfl, ?_⟩
+    refine ⟨d || ks.contains (rKey k), rfl, ?_⟩
     intro hfalse
     rw [Bool.or_eq_false_iff] at hfalse
     obtain ⟨r, hr, hv⟩ := hd hfalse.1
-    exact ⟨r, by rw [live_congr (hf k hfalse.2)]; exact hr, hv⟩
+    exact ⟨r, by rw [hf _ hfalse.2]; exact hr, hv⟩
   | casGet k ver v e =>
     obtain ⟨d, rfl⟩ := h
-    exact ⟨d || ks.contains k, rfl⟩
+    exact ⟨d || ks.contains (rKey k), rfl⟩
   | _ => trivial
 
-theorem WInv.update {s : St} (hi : WInv s) {srv' : Spec} {ks : List String}
-    (hf : ∀ k, ks.contains k = false → srv'.store.get k = s.srv.store.get k)
+theorem WInv.update {s : St} (hi : WInv s) {srv' : Redis} {ks : List String}
+    (hf : ∀ k, ks.contains k = false → (srv'.srv.purge s.now).get k = (s.srv.srv.purge s.now).get k)
     {t : Nat} {p' : Pc} {W : List (Option (String × Bool))} (hlen : W.length = s.watch.length)
     (hoth : ∀ t', t' ≠ t → W[t']? = (touch s.watch ks)[t']?)
     (hself : t < s.pc.length → WOk srv' s.now p' W[t]?) :
@@ -129,18 +154,7 @@ theorem WInv.init (n : Nat) : WInv (St.init n) := by
     · cases hp; trivial
     · cases hp
 
-theorem write_get_ne (s : Spec) (k v : String) (e : Option Nat) (k' : String)
-    (h : [k].contains k' = false) : (s.write k v e).1.store.get k' = s.store.get k' := by
-  simp only [Spec.write]
-  apply Store.get_put_ne
-  intro he; simp [he] at h
-
-theorem erase_get_ne (st : Store) (k k' : String)
-    (h : [k].contains k' = false) : (st.erase k).get k' = st.get k' := by
-  apply Store.get_erase_ne
-  intro he; simp [he] at h
-
-theorem WOk_loopNext (srv : Spec) (now : Nat) (rest : List (String × String × Option Nat))
+theorem WOk_loopNext (srv : Redis) (now : Nat) (rest : List (String × String × Option Nat))
     (w : Option (Option (String × Bool))) : WOk srv now (loopNext rest) w := by
   cases rest <;> trivial
 
@@ -164,45 +178,45 @@ theorem WInv.cmdStep {s s' : St} {t : Nat} {l : List (Lin.Ev LOp Out)} (hi : WIn
       · simp only [Option.some.injEq, Prod.mk.injEq] at h; obtain ⟨rfl, rfl⟩ := h
         exact hi.update (ks := []) (fun _ _ => rfl) (by simp) (by simp) (fun _ => trivial)
       · simp only [Option.some.injEq, Prod.mk.injEq] at h; obtain ⟨rfl, rfl⟩ := h
-        exact hi.update (ks := [k]) (write_get_ne _ _ _ _) (by simp) (by simp) (fun _ => trivial)
+        exact hi.update (ks := [rKey k]) (psrv_setRec_get_ne s _ _ _) (by simp) (by simp) (fun _ => trivial)
     | create2 k v e =>
       simp only at h
       split at h
       · simp only [Option.some.injEq, Prod.mk.injEq] at h; obtain ⟨rfl, rfl⟩ := h
-        exact hi.update (ks := []) (fun _ _ => rfl) (by simp) (by simp) (fun _ => trivial)
+        exact hi.update (ks := []) (fun k _ => psrv_get s k) (by simp) (by simp) (fun _ => trivial)
       · simp only [Option.some.injEq, Prod.mk.injEq] at h; obtain ⟨rfl, rfl⟩ := h
         exact hi.update (ks := []) (fun _ _ => rfl) (by simp) (by simp) (fun _ => trivial)
     | get k =>
       simp only [Option.some.injEq, Prod.mk.injEq] at h; obtain ⟨rfl, rfl⟩ := h
-      exact hi.update (ks := []) (fun _ _ => rfl) (by simp) (by simp) (fun _ => trivial)
+      exact hi.update (ks := []) (fun k _ => psrv_get s k) (by simp) (by simp) (fun _ => trivial)
     | getMany ks =>
       simp only [Option.some.injEq, Prod.mk.injEq] at h; obtain ⟨rfl, rfl⟩ := h
-      exact hi.update (ks := []) (fun _ _ => rfl) (by simp) (by simp) (fun _ => trivial)
+      exact hi.update (ks := []) (fun k _ => psrv_get s k) (by simp) (by simp) (fun _ => trivial)
     | put k v e =>
       simp only [Option.some.injEq, Prod.mk.injEq] at h; obtain ⟨rfl, rfl⟩ := h
-      exact hi.update (ks := [k]) (write_get_ne _ _ _ _) (by simp) (by simp) (fun _ => trivial)
+      exact hi.update (ks := [rKey k]) (psrv_setRec_get_ne s _ _ _) (by simp) (by simp) (fun _ => trivial)
     | putMany rs =>
       simp only [Option.some.injEq, Prod.mk.injEq] at h; obtain ⟨rfl, rfl⟩ := h
-      refine hi.update (ks := rs.map (·.1)) ?_ (by simp) (by simp) (fun _ => trivial)
+      refine hi.update (ks := rs.map (fun r => rKey r.1)) ?_ (by simp) (by simp) (fun _ => trivial)
       intro k hk
-      rw [Spec.step_putMany]
+      rw [Redis.step_putMany']
       simp only
-      apply putMany_get_ne
-      simpa [List.map_map] using hk
+      rw [putMany_get_ne _ _ _ _ (by simpa [List.map_map] using hk)]
+      exact psrv_get s k
     | putLoop rs =>
       cases rs with
       | nil => simp at h
       | cons a rest =>
         obtain ⟨k, v, e⟩ := a
         simp only [Option.some.injEq, Prod.mk.injEq] at h; obtain ⟨rfl, rfl⟩ := h
-        exact hi.update (ks := [k]) (write_get_ne _ _ _ _) (by simp) (by simp) (fun _ => WOk_loopNext _ _ _ _)
+        exact hi.update (ks := [rKey k]) (psrv_setRec_get_ne s _ _ _) (by simp) (by simp) (fun _ => WOk_loopNext _ _ _ _)
     | del k =>
       simp only at h
       split at h
       · simp only [Option.some.injEq, Prod.mk.injEq] at h; obtain ⟨rfl, rfl⟩ := h
-        exact hi.update (ks := []) (fun _ _ => rfl) (by simp) (by simp) (fun _ => trivial)
+        exact hi.update (ks := []) (fun k _ => psrv_get s k) (by simp) (by simp) (fun _ => trivial)
       · simp only [Option.some.injEq, Prod.mk.injEq] at h; obtain ⟨rfl, rfl⟩ := h
-        exact hi.update (ks := [k]) (erase_get_ne _ _) (by simp) (by simp) (fun _ => trivial)
+        exact hi.update (ks := [rKey k]) (psrv_del_get_ne s _) (by simp) (by simp) (fun _ => trivial)
     | casWatch k ver v e =>
       simp only [Option.some.injEq, Prod.mk.injEq] at h; obtain ⟨rfl, rfl⟩ := h
       refine hi.update (ks := []) (fun _ _ => rfl) (by simp) ?_ ?_
@@ -214,12 +228,12 @@ theorem WInv.cmdStep {s s' : St} {t : Nat} {l : List (Lin.Ev LOp Out)} (hi : WIn
       simp only at h
       split at h
       · simp only [Option.some.injEq, Prod.mk.injEq] at h; obtain ⟨rfl, rfl⟩ := h
-        refine hi.update (ks := []) (fun _ _ => rfl) (by simp) ?_ (fun _ => trivial)
+        refine hi.update (ks := []) (fun k _ => psrv_get s k) (by simp) ?_ (fun _ => trivial)
         intro t' ht; simp [List.getElem?_set_ne (Ne.symm ht)]
       · rename_i r hr
         split at h
         · simp only [Option.some.injEq, Prod.mk.injEq] at h; obtain ⟨rfl, rfl⟩ := h
-          refine hi.update (ks := []) (fun _ _ => rfl) (by simp) ?_ (fun _ => trivial)
+          refine hi.update (ks := []) (fun k _ => psrv_get s k) (by simp) ?_ (fun _ => trivial)
           intro t' ht; simp [List.getElem?_set_ne (Ne.symm ht)]
         · rename_i hv
           simp only [Option.some.injEq, Prod.mk.injEq] at h; obtain ⟨rfl, rfl⟩ := h
@@ -231,17 +245,17 @@ theorem WInv.cmdStep {s s' : St} {t : Nat} {l : List (Lin.Ev LOp Out)} (hi : WIn
       simp only at h
       split at h
       · simp only [Option.some.injEq, Prod.mk.injEq] at h; obtain ⟨rfl, rfl⟩ := h
-        refine hi.update (ks := [k]) (write_get_ne _ _ _ _) (by simp) ?_ (fun _ => trivial)
+        refine hi.update (ks := [rKey k]) (psrv_setRec_get_ne s _ _ _) (by simp) ?_ (fun _ => trivial)
         intro t' ht; simp [List.getElem?_set_ne (Ne.symm ht)]
       · simp only [Option.some.injEq, Prod.mk.injEq] at h; obtain ⟨rfl, rfl⟩ := h
         refine hi.update (ks := []) (fun _ _ => rfl) (by simp) ?_ (fun _ => trivial)
         intro t' ht; simp [List.getElem?_set_ne (Ne.symm ht)]
 
 /-- the shape of every command step: the clock stands still, and the step is
-(1) the linearization point of the client's operation: the server takes the contract's step at the
-    current time and the result is fixed; or
+(1) the linearization point of the client's operation: the server takes the step of the sequential
+    Redis client model (`Kv.Redis.step`: purge, then act) at the current time and the result is fixed; or
 (2) silent: server unchanged, same operation; or
-(3) one SET of the PutMany loop: the server takes a write. -/
+(3) one SET of the PutMany loop: the (purged) server takes a write. -/
 theorem cmdStep_shape {s s' : St} {t : Nat} {l : List (Lin.Ev LOp Out)} (hi : WInv s)
     (h : cmdStep s t = some (s', l)) :
     ∃ p, s.pc[t]? = some p ∧ s'.now = s.now ∧
@@ -250,7 +264,7 @@ theorem cmdStep_shape {s s' : St} {t : Nat} {l : List (Lin.Ev LOp Out)} (hi : WI
        (∃ op, opOf p = some op ∧ l = [] ∧ s'.srv = s.srv ∧ ∃ p', opOf p' = some op ∧ s'.pc = s.pc.set t p') ∨
        (∃ k v e rest, p = .putLoop ((k, v, e) :: rest) ∧
           l = [.inv t (.op (.put k v e)), .lin t, .ret t (.okVer s.srv.nextVer)] ∧
-          s'.srv = (s.srv.write k v e).1 ∧ s'.pc = s.pc.set t (loopNext rest))) := by
+          s'.srv = (s.psrv.setRec s.now k v e).1 ∧ s'.pc = s.pc.set t (loopNext rest))) := by
   unfold RedisConc.cmdStep at h
   cases hp : s.pc[t]? with
   | none => simp [hp] at h
@@ -268,19 +282,21 @@ theorem cmdStep_shape {s s' : St} {t : Nat} {l : List (Lin.Ev LOp Out)} (hi : WI
         exact ⟨rfl, .inr (.inl ⟨_, rfl, rfl, rfl, _, rfl, rfl⟩)⟩
       · rename_i hl
         simp only [Option.some.injEq, Prod.mk.injEq] at h; obtain ⟨rfl, rfl⟩ := h
-        refine ⟨rfl, .inl ⟨_, rfl, rfl, ?_, ?_⟩⟩ <;> simp [Spec.step, hl, St.setPc]
+        simp only [St.psrv] at hl
+        refine ⟨rfl, .inl ⟨_, rfl, rfl, ?_, ?_⟩⟩ <;> simp [Redis.step, hl, St.setPc, St.psrv]
     | create2 k v e =>
       simp only at h
       split at h
       · rename_i r hl
         simp only [Option.some.injEq, Prod.mk.injEq] at h; obtain ⟨rfl, rfl⟩ := h
-        refine ⟨rfl, .inl ⟨_, rfl, rfl, ?_, ?_⟩⟩ <;> simp [Spec.step, hl, St.setPc]
+        simp only [St.psrv] at hl
+        refine ⟨rfl, .inl ⟨_, rfl, rfl, ?_, ?_⟩⟩ <;> simp [Redis.step, hl, St.setPc, St.psrv]
       · simp only [Option.some.injEq, Prod.mk.injEq] at h; obtain ⟨rfl, rfl⟩ := h
         exact ⟨rfl, .inr (.inl ⟨_, rfl, rfl, rfl, .create1 k v e, rfl, rfl⟩)⟩
     | get k =>
       simp only [Option.some.injEq, Prod.mk.injEq] at h; obtain ⟨rfl, rfl⟩ := h
       refine ⟨rfl, .inl ⟨_, rfl, rfl, ?_, rfl⟩⟩
-      simp only [St.setPc, Spec.step]; split <;> rfl
+      simp only [St.setPc, Redis.step, St.psrv]; split <;> rfl
     | getMany ks =>
       simp only [Option.some.injEq, Prod.mk.injEq] at h; obtain ⟨rfl, rfl⟩ := h
       exact ⟨rfl, .inl ⟨_, rfl, rfl, rfl, rfl⟩⟩
@@ -290,7 +306,7 @@ theorem cmdStep_shape {s s' : St} {t : Nat} {l : List (Lin.Ev LOp Out)} (hi : WI
     | putMany rs =>
       simp only [Option.some.injEq, Prod.mk.injEq] at h; obtain ⟨rfl, rfl⟩ := h
       refine ⟨rfl, .inl ⟨_, rfl, rfl, rfl, ?_⟩⟩
-      rw [Spec.step_putMany]; rfl
+      rw [Redis.step_putMany']; rfl
     | putLoop rs =>
       cases rs with
       | nil => simp at h
@@ -303,10 +319,12 @@ theorem cmdStep_shape {s s' : St} {t : Nat} {l : List (Lin.Ev LOp Out)} (hi : WI
       split at h
       · rename_i hl
         simp only [Option.some.injEq, Prod.mk.injEq] at h; obtain ⟨rfl, rfl⟩ := h
-        refine ⟨rfl, .inl ⟨_, rfl, rfl, ?_, ?_⟩⟩ <;> simp [Spec.step, hl, St.setPc]
+        simp only [St.psrv] at hl
+        refine ⟨rfl, .inl ⟨_, rfl, rfl, ?_, ?_⟩⟩ <;> simp [Redis.step, hl, St.setPc, St.psrv]
       · rename_i r hl
         simp only [Option.some.injEq, Prod.mk.injEq] at h; obtain ⟨rfl, rfl⟩ := h
-        refine ⟨rfl, .inl ⟨_, rfl, rfl, ?_, ?_⟩⟩ <;> simp [Spec.step, hl, St.setPc]
+        simp only [St.psrv] at hl
+        refine ⟨rfl, .inl ⟨_, rfl, rfl, ?_, ?_⟩⟩ <;> simp [Redis.step, hl, St.setPc, St.psrv]
     | casWatch k ver v e =>
       simp only [Option.some.injEq, Prod.mk.injEq] at h; obtain ⟨rfl, rfl⟩ := h
       exact ⟨rfl, .inr (.inl ⟨_, rfl, rfl, rfl, .casGet k ver v e, rfl, rfl⟩)⟩
@@ -315,12 +333,14 @@ theorem cmdStep_shape {s s' : St} {t : Nat} {l : List (Lin.Ev LOp Out)} (hi : WI
       split at h
       · rename_i hl
         simp only [Option.some.injEq, Prod.mk.injEq] at h; obtain ⟨rfl, rfl⟩ := h
-        refine ⟨rfl, .inl ⟨_, rfl, rfl, ?_, ?_⟩⟩ <;> simp [Spec.step, hl, St.setPc]
+        simp only [St.psrv] at hl
+        refine ⟨rfl, .inl ⟨_, rfl, rfl, ?_, ?_⟩⟩ <;> simp [Redis.step, hl, St.setPc, St.psrv]
       · rename_i r hl
+        simp only [St.psrv] at hl
         split at h
         · rename_i hv
           simp only [Option.some.injEq, Prod.mk.injEq] at h; obtain ⟨rfl, rfl⟩ := h
-          refine ⟨rfl, .inl ⟨_, rfl, rfl, ?_, ?_⟩⟩ <;> simp [Spec.step, hl, St.setPc, hv]
+          refine ⟨rfl, .inl ⟨_, rfl, rfl, ?_, ?_⟩⟩ <;> simp [Redis.step, hl, St.setPc, hv, St.psrv]
         · simp only [Option.some.injEq, Prod.mk.injEq] at h; obtain ⟨rfl, rfl⟩ := h
           exact ⟨rfl, .inr (.inl ⟨_, rfl, rfl, rfl, .casExec k ver v e, rfl, rfl⟩)⟩
     | casExec k ver v e =>
@@ -332,7 +352,7 @@ theorem cmdStep_shape {s s' : St} {t : Nat} {l : List (Lin.Ev LOp Out)} (hi : WI
         simp only [Option.some.injEq, Prod.mk.injEq] at hw
         obtain ⟨r, hl, hv⟩ := hr hw.2
         simp only [Option.some.injEq, Prod.mk.injEq] at h; obtain ⟨rfl, rfl⟩ := h
-        refine ⟨rfl, .inl ⟨_, rfl, rfl, ?_, ?_⟩⟩ <;> simp [Spec.step, hl, St.setPc, hv]
+        refine ⟨rfl, .inl ⟨_, rfl, rfl, ?_, ?_⟩⟩ <;> simp [Redis.step, hl, St.setPc, hv, St.psrv]
       · simp only [Option.some.injEq, Prod.mk.injEq] at h; obtain ⟨rfl, rfl⟩ := h
         exact ⟨rfl, .inr (.inl ⟨_, rfl, rfl, rfl, .casWatch k ver v e, rfl, rfl⟩)⟩
 
@@ -374,7 +394,7 @@ theorem entry_opOf {op : Op} {p : Pc} (h : entry op = some p) :
   | list p => simp [entry] at h
   | wait k ver => simp [entry] at h
 
-theorem entry_WOk {op : Op} {p : Pc} (h : entry op = some p) (srv : Spec) (now : Nat)
+theorem entry_WOk {op : Op} {p : Pc} (h : entry op = some p) (srv : Redis) (now : Nat)
     (w : Option (Option (String × Bool))) : WOk srv now p w := by
   cases op with
   | create k v e => simp [entry] at h; subst h; trivial
@@ -520,7 +540,7 @@ theorem cmdStep_weak {s s' : St} {t : Nat} {l : List (Lin.Ev LOp Out)} (h : cmdS
        (l = [] ∧ s'.srv = s.srv ∧ ∃ op p', s'.pc = s.pc.set t p' ∧ opOf p' = some op ∧ opOf p = some op) ∨
        (∃ k v e rest, p = .putLoop ((k, v, e) :: rest) ∧
           l = [.inv t (.op (.put k v e)), .lin t, .ret t (.okVer s.srv.nextVer)] ∧
-          s'.srv = (s.srv.write k v e).1 ∧ s'.pc = s.pc.set t (loopNext rest))) := by
+          s'.srv = (s.psrv.setRec s.now k v e).1 ∧ s'.pc = s.pc.set t (loopNext rest))) := by
   unfold RedisConc.cmdStep at h
   cases hp : s.pc[t]? with
   | none => simp [hp] at h
